@@ -20,6 +20,7 @@ var propTable = map[string]propFn{
 	"C10": checkC10,
 	"C11": checkC11,
 	"C12": checkC12,
+	"C13": checkC13,
 	"C14": checkC14,
 	"C17": checkC17,
 	"C18": checkC18,
